@@ -337,6 +337,7 @@ inductive Upd where
 inductive Err where
   | bounds        -- an `assert_bounds` / `assert_unit` style argument error
   | mixedSpaces   -- RGB with HSL/HWB parameters, HSL with HWB parameters
+  | channels      -- `parse_channels`: "Only 3 elements allowed" / "Missing element $x"
   | unsupported   -- outside the model
   deriving DecidableEq, Repr, Inhabited
 
@@ -530,8 +531,12 @@ def sameColor (c d : Color) : Bool := c.eq d && visitColor true c == visitColor 
        `ok color <r> <g> <b> <a> | <hex compressed> | <hex expanded>`  (channels as `n/d`, texts hex-encoded)
        `ok num <n/d> <unit>` | `ok bool 0|1` | `ok str <hex>` | `err <class>` | `unsupported`
        (a trailing ` risky` marks f64-sensitive roundings, see below)
-  S-expression tokens: `(` f arg… `)`; atoms `n:<num>/<den>:<unit>` (unit `-` none, `pct`, `deg`),
-  `c:<spelling>` named colour, `h:<digits>` hex colour, `k:<name>` keyword marker (next arg is its value).
+  S-expression tokens: `(` f arg… `)`; atoms `n:<num>/<den>:<unit>` (unit `-` none, `pct`, `deg`, `grad`,
+  `rad`, `turn`, or any other unit name such as `px`), `c:<spelling>` named colour, `h:<digits>` hex colour,
+  `v:<hex of text>` an unquoted special-function string (`var(--x)`, `env(x)`), `k:<name>` keyword marker
+  (next arg is its value).  `rgb`/`rgba`/`hsl`/`hsla` are separate function tokens (the name is part of
+  the string they return for special arguments); `rgb-ch`/`rgba-ch`/`hsl-ch`/`hsla-ch`/`hwb-ch` are the
+  one-argument forms `f(a b c)` / `f(a b c / alpha)` (elements as arguments, alpha as `k:slash`).
   color inrange <r> <g> <b> <a>                  P̂ range on an observed colour (rationals `n/d`)
   color same <r g b a> <r g b a>                 `sameColor` (`Color.eq` + identical compressed print) on two observed colours
 -/
@@ -541,6 +546,7 @@ inductive Val where
   | num (x : Rat) (unit : String)
   | bool (b : Bool)
   | str (s : String)
+  | special (s : String)   -- an unquoted string for which `is_special_function` holds
   deriving Repr, Inhabited
 
 def ratStr (x : Rat) : String := toString x.num ++ "/" ++ toString x.den
@@ -561,10 +567,12 @@ def valStr : Val → String
   | .num x u => "ok num " ++ ratStr x ++ " " ++ (if u == "" then "-" else u)
   | .bool b => "ok bool " ++ boolStr b
   | .str s => "ok str " ++ hexEncode s
+  | .special s => "ok str " ++ hexEncode s
 
 def errStr : Err → String
   | .bounds => "err bounds"
   | .mixedSpaces => "err mixed"
+  | .channels => "err channels"
   | .unsupported => "unsupported"
 
 /-- `percentage_or_unitless`, rgb.rs:152. -/
@@ -573,10 +581,25 @@ def pctOrUnitless (x : Rat) (u : String) (max : Rat) : Except Err Rat :=
   else if u == "pct" then .ok (clamp ((x * max) / 100) 0 max)
   else .error .bounds
 
-/-- `angle_value`, builtin/functions/color/mod.rs:23, for unitless / deg / % (other angle units are
-    outside the model). -/
+/-- `180.0 / PI` (unit/conversion.rs:83): the exact value of the f64 grass computes. -/
+def radToDeg : Rat := 1007958012753983 / 17592186044416
+
+/-- `conversion_factor(unit, deg)` for the units compatible with `deg` (unit/conversion.rs:80–84:
+    `from_deg`: deg 1, grad 9/10, rad 180/π, turn 360).  The f64 `9.0 / 10.0` is modelled as 9/10. -/
+def angleFactor (u : String) : Option Rat :=
+  if u == "deg" then some 1
+  else if u == "grad" then some (9 / 10)
+  else if u == "rad" then some radToDeg
+  else if u == "turn" then some 360
+  else none
+
+/-- `angle_value`, builtin/functions/color/mod.rs:23: a number whose unit is compatible with `deg`
+    (deg, grad, rad, turn) is converted to degrees; every other number — unitless, `%`, `px`, … —
+    passes with its bare value. -/
 def angleValue (x : Rat) (u : String) : Except Err Rat :=
-  if u == "" || u == "deg" || u == "pct" then .ok x else .error .unsupported
+  match angleFactor u with
+  | some f => .ok (x * f)
+  | none => .ok x
 
 /-- `assert_bounds`, value/sass_number.rs:194 (exact comparisons). -/
 def assertBounds (x lo hi : Rat) : Except Err Unit :=
@@ -629,6 +652,141 @@ def fnHwb (h w b : Rat × String) (a : Option (Rat × String)) : Except Err Colo
         | .ok alpha => .ok (fromHwb hue w.1 b.1 alpha)
       | .error e, _ => .error e
       | _, .error e => .error e
+
+/-! ### Special-function / var() arguments and the one-argument channel syntax, rgb.rs:5–330, hsl.rs:11–115 -/
+
+/-- `is_special_function`, utils/mod.rs:36. -/
+def isSpecialStr (s : String) : Bool :=
+  s.startsWith "calc(" || s.startsWith "var(" || s.startsWith "env(" || s.startsWith "min("
+    || s.startsWith "max(" || s.startsWith "clamp("
+
+/-- `Value::is_var` on an unquoted string, value/mod.rs:310 (`s.len()` counts bytes). -/
+def isVarStr (s : String) : Bool := decide (8 ≤ s.utf8ByteSize) && s.startsWith "var("
+
+def Val.isSpecial : Val → Bool
+  | .special s => isSpecialStr s
+  | _ => false
+
+def Val.isVar : Val → Bool
+  | .special s => isVarStr s
+  | _ => false
+
+/-- How a unit is displayed (unit/mod.rs:270 `Display`): `%` for percent, the name otherwise. -/
+def unitStr (u : String) : String := if u == "pct" then "%" else u
+
+/-- `Number::inspect` / `to_string(false)` followed by the unit (value/number.rs:261). -/
+def numCss (x : Rat) (u : String) : String := fmtNum false x ++ unitStr u
+
+/-- `to_css_string(span, false)` of the argument kinds the model covers: numbers and special strings. -/
+def argCss : Val → Except Err String
+  | .num x u => .ok (numCss x u)
+  | .special s => .ok s
+  | _ => .error .unsupported
+
+/-- `function_string`, rgb.rs:5: `name(arg, arg, …)`. -/
+def functionString (name : String) (args : List Val) : Except Err String :=
+  (args.mapM argCss).map fun ss => name ++ "(" ++ ", ".intercalate ss ++ ")"
+
+/-- `inner_rgb_3_arg`, rgb.rs:82: three or four arguments; any special function among them makes the
+    call a plain-CSS function string. -/
+def fnRgb34 (name : String) (args : List Val) : Except Err Val :=
+  if args.any Val.isSpecial then (functionString name args).map .str
+  else
+    match args with
+    | [.num r ru, .num g gu, .num b bu] => (fnRgb (r, ru) (g, gu) (b, bu) none).map .color
+    | [.num r ru, .num g gu, .num b bu, .num a au] => (fnRgb (r, ru) (g, gu) (b, bu) (some (a, au))).map .color
+    | _ => .error .unsupported
+
+/-- `name(r, g, b, alpha-text)` of rgb.rs:38/57 (`color.red().to_string(false)` …). -/
+def rgbWithAlphaText (name : String) (c : Color) (alpha : String) : String :=
+  name ++ "(" ++ fmtNum false c.red ++ ", " ++ fmtNum false c.green ++ ", " ++ fmtNum false c.blue ++ ", " ++ alpha ++ ")"
+
+/-- `inner_rgb_2_arg`, rgb.rs:21: `rgba($color, $alpha)`. -/
+def fnRgb2 (name : String) (color alpha : Val) : Except Err Val :=
+  if color.isVar then (functionString name [color, alpha]).map .str
+  else if alpha.isVar then
+    match color, alpha with
+    | .color c, .special s => .ok (.str (rgbWithAlphaText name c s))
+    | _, _ => (functionString name [color, alpha]).map .str
+  else if alpha.isSpecial then
+    match color, alpha with
+    | .color c, .special s => .ok (.str (rgbWithAlphaText name c s))
+    | _, _ => .error .unsupported          -- "$color: … is not a color."
+  else
+    match color, alpha with
+    | .color c, .num a au => (pctOrUnitless a au 1).map fun a => .color (withAlpha c a)
+    | _, _ => .error .unsupported
+
+/-- `hsl_3_args`, hsl.rs:11. -/
+def fnHsl34 (name : String) (args : List Val) : Except Err Val :=
+  if args.any Val.isSpecial then (functionString name args).map .str
+  else
+    match args with
+    | [.num h hu, .num s su, .num l lu] => (fnHsl (h, hu) (s, su) (l, lu) none).map .color
+    | [.num h hu, .num s su, .num l lu, .num a au] => (fnHsl (h, hu) (s, su) (l, lu) (some (a, au))).map .color
+    | _ => .error .unsupported
+
+/-- hsl()/hsla() with two arguments, hsl.rs:96. -/
+def fnHsl2 (name : String) (hue sat : Val) : Except Err Val :=
+  if hue.isVar || sat.isVar then (functionString name [hue, sat]).map .str
+  else .error .unsupported                  -- "Missing argument $lightness."
+
+inductive Channels where
+  | string (s : String)
+  | list (l : List Val)
+  deriving Repr, Inhabited
+
+def isNumVal : Val → Bool
+  | .num _ _ => true
+  | _ => false
+
+/-- `parse_channels`, rgb.rs:170, for `$channels` = a space-separated list `elems` of numbers and
+    special strings, optionally written `… last / alpha` with number literals `last` and `alpha`
+    (the parser then stores both in `as_slash` of the last element, rgb.rs:303).  Other shapes
+    (slash-separated lists built by `list.slash`, bracketed or comma lists, `3/var(--x)` strings)
+    answer `unsupported`. -/
+def parseChannels (name : String) (elems : List Val) (slash : Option Val) : Except Err Channels :=
+  if elems.any (fun v => !(isNumVal v || v.isSpecial)) then .error .unsupported
+  else if slash.isSome && !((elems.getLast?.map isNumVal).getD false && (slash.map isNumVal).getD false) then
+    .error .unsupported
+  else if elems.length == 1 && slash.isNone && elems.any Val.isVar then
+    (functionString name elems).map .string                                   -- rgb.rs:177
+  else if elems.length > 3 then .error .channels                              -- rgb.rs:254
+  else if elems.length < 3 then
+    if elems.any Val.isVar then                                               -- rgb.rs:260
+      if slash.isSome then .error .unsupported
+      else (elems.mapM argCss).map fun ss => .string (name ++ "(" ++ " ".intercalate ss ++ ")")
+    else .error .channels                                                     -- "Missing element"
+  else
+    match slash with
+    | some a => .ok (.list (elems ++ [a]))                                    -- rgb.rs:303 `as_slash`
+    | none => .ok (.list elems)
+
+/-- rgb()/rgba() with one argument, rgb.rs:317. -/
+def fnRgb1 (name : String) (elems : List Val) (slash : Option Val) : Except Err Val :=
+  match parseChannels name elems slash with
+  | .ok (.string s) => .ok (.str s)
+  | .ok (.list l) => fnRgb34 name l
+  | .error e => .error e
+
+/-- hsl()/hsla() with one argument, hsl.rs:76. -/
+def fnHsl1 (name : String) (elems : List Val) (slash : Option Val) : Except Err Val :=
+  match parseChannels name elems slash with
+  | .ok (.string s) => .ok (.str s)
+  | .ok (.list l) => fnHsl34 name l
+  | .error e => .error e
+
+/-- color.hwb() with one argument, hwb.rs:73 (a `var()` string is an error there). -/
+def fnHwb1 (elems : List Val) (slash : Option Val) : Except Err Val :=
+  match parseChannels "hwb" elems slash with
+  | .ok (.list [.num h hu, .num w wu, .num b bu]) => (fnHwb (h, hu) (w, wu) (b, bu) none).map .color
+  | .ok (.list [.num h hu, .num w wu, .num b bu, .num a au]) => (fnHwb (h, hu) (w, wu) (b, bu) (some (a, au))).map .color
+  | .ok _ => .error .unsupported
+  | .error e => .error e
+
+/-- grayscale(n) / invert(n) / opacity(n) / saturate(n): the plain-CSS filter functions are returned as
+    unquoted strings (hsl.rs:213, 283, 320; opacity.rs:70). -/
+def cssFilter (name : String) (x : Rat) (u : String) : Val := .str (name ++ "(" ++ numCss x u ++ ")")
 
 /-- `$amount` of lighten/darken/saturate/desaturate and `$weight` of mix/invert: bounds [0,100]
     (any unit), then divided by 100. -/
@@ -698,6 +856,11 @@ def planRisk : Plan → Bool
   | .hwb h w b _ => risk3 (hwbToRgbExact h w b)
   | _ => false
 
+def angleOf (x : Rat) (u : String) : Rat :=
+  match angleValue x u with
+  | .ok v => v
+  | .error _ => x
+
 def numRisk (x : Rat) (u : String) (max : Rat) : Bool :=
   match pctOrUnitless x u max with
   | .ok v => nearHalf v
@@ -715,7 +878,11 @@ def updRisk (u : Upd) (c : Color) (kw : List (String × Val)) : Bool :=
 def applyRisk (f : String) (args : List Val) (kw : List (String × Val)) : Bool :=
   match f, args with
   | "rgb", .num r ru :: .num g gu :: .num b bu :: _ => numRisk r ru 255 || numRisk g gu 255 || numRisk b bu 255
-  | "hwb", .num h _ :: .num w _ :: .num b _ :: _ => risk3 (hwbToRgbExact h w b)
+  | "rgba", .num r ru :: .num g gu :: .num b bu :: _ => numRisk r ru 255 || numRisk g gu 255 || numRisk b bu 255
+  | "rgb-ch", .num r ru :: .num g gu :: .num b bu :: _ => numRisk r ru 255 || numRisk g gu 255 || numRisk b bu 255
+  | "rgba-ch", .num r ru :: .num g gu :: .num b bu :: _ => numRisk r ru 255 || numRisk g gu 255 || numRisk b bu 255
+  | "hwb-ch", .num h hu :: .num w _ :: .num b _ :: _ => risk3 (hwbToRgbExact (angleOf h hu) w b)
+  | "hwb", .num h hu :: .num w _ :: .num b _ :: _ => risk3 (hwbToRgbExact (angleOf h hu) w b)
   | "mix", [.color c1, .color c2] => mixRisk c1 c2 (1/2)
   | "mix", [.color c1, .color c2, .num w _] => mixRisk c1 c2 (w / 100)
   | "invert", [.color c] => mixRisk (inverseOf c) c 1
@@ -732,17 +899,36 @@ def valRisk : Val → Bool
 
 def applyFn (f : String) (args : List Val) (kw : List (String × Val)) : Except Err Val :=
   match f, args, kw with
-  | "rgb", [.num r ru, .num g gu, .num b bu], [] => (fnRgb (r, ru) (g, gu) (b, bu) none).map .color
-  | "rgb", [.num r ru, .num g gu, .num b bu, .num a au], [] => (fnRgb (r, ru) (g, gu) (b, bu) (some (a, au))).map .color
-  | "rgb", [.color c, .num a au], [] => (pctOrUnitless a au 1).map fun a => .color (withAlpha c a)
-  | "hsl", [.num h hu, .num s su, .num l lu], [] => (fnHsl (h, hu) (s, su) (l, lu) none).map .color
-  | "hsl", [.num h hu, .num s su, .num l lu, .num a au], [] => (fnHsl (h, hu) (s, su) (l, lu) (some (a, au))).map .color
+  | "rgb", [c, a], [] => fnRgb2 "rgb" c a
+  | "rgba", [c, a], [] => fnRgb2 "rgba" c a
+  | "rgb", [r, g, b], [] => fnRgb34 "rgb" [r, g, b]
+  | "rgba", [r, g, b], [] => fnRgb34 "rgba" [r, g, b]
+  | "rgb", [r, g, b, a], [] => fnRgb34 "rgb" [r, g, b, a]
+  | "rgba", [r, g, b, a], [] => fnRgb34 "rgba" [r, g, b, a]
+  | "hsl", [h, s], [] => fnHsl2 "hsl" h s
+  | "hsla", [h, s], [] => fnHsl2 "hsla" h s
+  | "hsl", [h, s, l], [] => fnHsl34 "hsl" [h, s, l]
+  | "hsla", [h, s, l], [] => fnHsl34 "hsla" [h, s, l]
+  | "hsl", [h, s, l, a], [] => fnHsl34 "hsl" [h, s, l, a]
+  | "hsla", [h, s, l, a], [] => fnHsl34 "hsla" [h, s, l, a]
+  | "rgb-ch", elems, [] => fnRgb1 "rgb" elems none
+  | "rgb-ch", elems, [("slash", a)] => fnRgb1 "rgb" elems (some a)
+  | "rgba-ch", elems, [] => fnRgb1 "rgba" elems none
+  | "rgba-ch", elems, [("slash", a)] => fnRgb1 "rgba" elems (some a)
+  | "hsl-ch", elems, [] => fnHsl1 "hsl" elems none
+  | "hsl-ch", elems, [("slash", a)] => fnHsl1 "hsl" elems (some a)
+  | "hsla-ch", elems, [] => fnHsl1 "hsla" elems none
+  | "hsla-ch", elems, [("slash", a)] => fnHsl1 "hsla" elems (some a)
+  | "hwb-ch", elems, [] => fnHwb1 elems none
+  | "hwb-ch", elems, [("slash", a)] => fnHwb1 elems (some a)
   | "hwb", [.num h hu, .num w wu, .num b bu], [] => (fnHwb (h, hu) (w, wu) (b, bu) none).map .color
   | "hwb", [.num h hu, .num w wu, .num b bu, .num a au], [] => (fnHwb (h, hu) (w, wu) (b, bu) (some (a, au))).map .color
   | "red", [.color c], [] => .ok (.num c.red "")
   | "green", [.color c], [] => .ok (.num c.green "")
   | "blue", [.color c], [] => .ok (.num c.blue "")
   | "alpha", [.color c], [] => .ok (.num c.alpha "")
+  | "opacity", [.color c], [] => .ok (.num c.alpha "")
+  | "opacity", [.num x u], [] => .ok (cssFilter "opacity" x u)
   | "hue", [.color c], [] => .ok (.num c.hue "deg")
   | "saturation", [.color c], [] => .ok (.num c.saturation "pct")
   | "lightness", [.color c], [] => .ok (.num (c.lightness false) "pct")
@@ -756,6 +942,9 @@ def applyFn (f : String) (args : List Val) (kw : List (String × Val)) : Except 
   | "invert", [.color c, .num w _], [] => (pctAmount w).map fun w => .color (invert false c w)
   | "complement", [.color c], [] => .ok (.color (complement c))
   | "grayscale", [.color c], [] => .ok (.color (desaturate c 1))
+  | "grayscale", [.num x u], [] => .ok (cssFilter "grayscale" x u)
+  | "invert", [.num x u], [] => .ok (cssFilter "invert" x u)
+  | "saturate", [.num x u], [] => .ok (cssFilter "saturate" x u)
   | "adjust-hue", [.color c, .num d du], [] => (angleValue d du).map fun d => .color (adjustHue c d)
   | "lighten", [.color c, .num x _], [] => (pctAmount x).map fun x => .color (lighten c x)
   | "darken", [.color c, .num x _], [] => (pctAmount x).map fun x => .color (darken c x)
@@ -781,6 +970,10 @@ def parseAtom (t : String) : Except Err Val :=
   | ["c", s] =>
     match ofNameCodes (s.toList.map Char.toNat) s with
     | some c => .ok (.color c)
+    | none => .error .unsupported
+  | ["v", h] =>
+    match hexDecode h with
+    | some s => if isSpecialStr s then .ok (.special s) else .error .unsupported
     | none => .error .unsupported
   | ["h", s] =>
     match hexDigitsOf s with
